@@ -1,7 +1,7 @@
 SPECIFICATION Spec
 CONSTANTS
-  MaxLen = 5
-  TightMax = 4
+  MaxLen = 4
+  TightMax = 3
   Kinds = {"H2", "H3", "H4", "P", "C", "L", "Q", "I", "F"}
 INVARIANTS ElementsAgree NothingLost SectionLaw MergeLaw TocLaw Emit
 CHECK_DEADLOCK FALSE
